@@ -64,6 +64,14 @@ CLAIMED["C13"] = dict(
     design_ref="§5 C13",
 )
 
+CLAIMED["C15"] = dict(
+    category="exploration",
+    technique="exhaustive enumeration of a finite set: every record of every shipped parameter file",
+    text="The quantifier is a finite set and both tiers enumerate it completely: every JSON file is parsed with its model's record type and checked structurally (duplicate names / pairs, positivity, referential integrity, bond indices), every pure PC-SAFT, SAFT-VR Mie and SAFT-VRQ Mie record (2180 records) is turned into a model whose critical point and saturation curve (8 reduced temperatures) are computed, and every gc substance is assembled from the segment tables. The harness fails as machinery error if a parameter file exists on disk for which it has no record type.",
+    design_ref="§5 C15",
+    note="Trusted base: serde record definitions are the schema; 'lookup identifier' = substance name (all documented lookups use IdentifierOption::Name; several files deliberately hold several parameterisations of one CAS number). Saturation curve sampled at the 8 reduced temperatures the property was calibrated on.",
+)
+
 NOT_YET = "check not built yet (work in progress; see DESIGN.md §9 build order) - not a claim that the technique cannot apply"
 
 ALL = ["C%02d" % i for i in range(1, 21)]
